@@ -94,6 +94,24 @@ _reg("C14", "xsim.table.props", "C14", "exploration", {"quick": 8000, "thorough"
      "one case = 1-3 seeded tables + a history of derivations (rows, cols incl. expression columns, +, *, concatenate, _copy, _t) "
      "and column/cell assignments over a population of up to 7 live tables that may share arrays; after every op every live table "
      "is checked; distinct = distinct case digest; non-trivial = at least one derivation produced a table")
+_reg("C09", "xsim.optimizer.props", "C09", "fault_enumeration", {"quick": 960, "thorough": 40000}, {"quick": 30, "thorough": 150},
+     ("pure",), COMPONENTS_OPT,
+     "one case = one generated problem (plant family, limits, weights, tolerances, solver options, optional earlier steps); solve() "
+     "is run fault-free (N plant evaluations), then once for EVERY evaluation index k < N (capped at 40, evenly spread) with the "
+     "action raising at k and once with it returning 'failed' at k, plus random multi-fault plans; distinct = distinct case "
+     "digest; non-trivial = at least one faulted solve was executed (count in probes.faulted_solves)")
+_reg("C10", "xsim.optimizer.props", "C10", "exploration", {"quick": 3200, "thorough": 100000}, {"quick": 100, "thorough": 400},
+     ("pure",), COMPONENTS_OPT,
+     "one case = one generated problem (solutions inside, outside and far from the limits; per-knob max_step; persistently and "
+     "per-call disabled knobs/targets; unit and non-unit weights) + a history of step/solve/enable/disable/reload/tag calls, "
+     "optionally with 'failed' plant evaluations and a twin run whose disabled target returns unrelated values; distinct = "
+     "distinct case digest; non-trivial = at least one step/solve call was monitored")
+_reg("C15", "xsim.optimizer.props", "C15", "exploration", {"quick": 3200, "thorough": 100000}, {"quick": 100, "thorough": 400},
+     ("pure",), COMPONENTS_OPT,
+     "one case = one generated problem + a history of step/solve/reload/reload(tag)/tag/enable/disable/clear_log/user knob "
+     "assignments (failing solves included, optional fault plans); after every call the log must be aligned and readable and a "
+     "take_best step must end within tolerance or on a minimum-penalty row; at the end every row is reloaded and re-evaluated "
+     "independently; distinct = distinct case digest; non-trivial = at least two log rows were reproduced")
 
 
 def driver_for(prop):
@@ -217,4 +235,31 @@ MANIFEST_TEXT = {
              "untouched, and a mutation must not change another table's structure; column expressions equal element-wise evaluation",
         design_ref="DESIGN.md 5 (C14), 4.2", note=_TB,
         technique="deterministic simulation: stateful derivation histories with aliasing against a reference table"),
+    "C09": dict(
+        text="fault enumeration over the user's callback: for each generated problem solve() is first run fault-free (N plant "
+             "evaluations) and then once per evaluation index k < N with the action raising at k and once with it returning "
+             "'failed' at k (cap 40 indices, evenly spread), plus random multi-fault plans and fault-free failures (inconsistent "
+             "systems, solutions outside limits). Oracle: normal return => every active target, recomputed by the plant from the "
+             "knob container, is within tolerance; exception + restore_if_fail => knobs and active flags equal iteration 0 of the "
+             "log (bit-exact for unit weights), the action's own exception object reaches the caller, the log stays aligned",
+        design_ref="DESIGN.md 5 (C09), 4.3", note=_TB,
+        technique="deterministic simulation: callback fault at every evaluation index of solve()"),
+    "C10": dict(
+        text="invariants monitored while histories of step/solve/enable/disable/reload calls run on generated plants whose "
+             "solution lies inside, outside or far from the limits: every new log row and the containers inside the closed limits; "
+             "|delta knob| <= max_step between consecutive Jacobian rows (unit weights); a knob disabled persistently or for one "
+             "call keeps its value in every row; knobs/targets disabled for one call are active again afterwards and calls with "
+             "such arguments are usable; 'failed' plant evaluations injected inside calls; a twin run on a plant whose disabled "
+             "target returns unrelated values must produce bit-identical knob trajectories and penalties",
+        design_ref="DESIGN.md 5 (C10), 4.3", note=_TB,
+        technique="deterministic simulation: invariant monitoring of optimizer iterates with a misbehaving plant and a twin"),
+    "C15": dict(
+        text="histories over step/solve/reload/reload(tag)/tag/enable/disable/clear_log/user knob assignments with failing solves "
+             "and fault plans (action raising or returning 'failed' inside chosen calls): after every call the log lists must be "
+             "aligned and log() readable; a step/solve with take_best that returns normally must end within tolerance or on a "
+             "minimum-penalty row of that call; at the end EVERY row is reloaded (knobs bit-exact for unit weights, active flags) "
+             "and the plant evaluated independently there must reproduce the row's targets and penalty; rows written during a "
+             "faulted call are excluded from the reproduction clause only",
+        design_ref="DESIGN.md 5 (C15), 4.3", note=_TB,
+        technique="deterministic simulation: optimizer call histories with callback faults, log replay oracle"),
 }
